@@ -46,6 +46,8 @@ def noise_texture(rng, shape, kind):
         return None
     if kind == 'low':
         return nrng.randint(0, 12, size=shape)
+    if kind == 'rough':
+        return nrng.randint(0, 25, size=shape)
     if kind == 'speckle':
         n = np.zeros(shape, dtype=int)
         k = max(1, shape[0] * shape[1] // 40)
